@@ -19,6 +19,15 @@ CLAIMED = {
              "run on a basis (single-bit/all-ones old words x single-bit/max/random values) + random; relocation-table bit ranges dumped from the compiled crate.",
         technique="Coq proof by bit-slice reflection (sound finite checker per kind) + model/implementation correspondence by vm_compute",
         design_ref="DESIGN.md §3 C13"),
+    "C12": dict(
+        text="S1. The relocation tables are regenerated from the compiled crate on every run (T1); theorems accept_complete / reject_sound / table_total / "
+             "no_truncation / field_width hold for ALL 64-bit values, obtained by lifting finite per-row interval checks (vm_compute over the regenerated table) "
+             "with soundness lemmas. Spec rows (x86-64 + AArch64 static types) are hand-written from psABI/bfd/lld rules; x86-64 data rows are validated against "
+             "the installed ld/ld.lld; the bit-mask arm of write_to_buffer is C13. Three genuine defects found by these theorems were repaired (fix: commits).",
+        note="Trusted: Coq kernel + vm_compute, no axioms; compile-and-dump translator (rustc is the parser); hand spec (AArch64 bfd column unvalidated: conservative intersection/union); "
+             "tie = verify/write_to_buffer through the pub API on boundary values of every x86-64/AArch64 row + wild binary end-to-end on x86-64 data relocations.",
+        technique="Coq proof (finite row checks lifted by soundness lemmas) over a model regenerated from source + correspondence run",
+        design_ref="DESIGN.md §3 C12"),
 }
 
 PENDING_REASON = "not claimed yet: model/theorems for this property are not built in this revision (see DESIGN.md §8 construction order)"
